@@ -2,6 +2,7 @@ import Lessm.Props.Cross
 import Lessm.Props.CrossGuard
 import Lessm.Props.CrossAt
 import Lessm.Props.CrossPrint
+import Lessm.Props.CrossStr
 open Lessm.Cross
 #print axioms Lessm.Cross.vars_conservative_over_nest
 #print axioms Lessm.Cross.media_conservative_over_nest
@@ -18,3 +19,4 @@ open Lessm.Cross
 #print axioms Lessm.Cross.atrule_print_is_formatter
 #print axioms Lessm.Cross.atrule_format_is_formatter
 #print axioms Lessm.Cross.trim_agree
+#print axioms Lessm.Cross.str_interp_is_sel_interp
